@@ -194,6 +194,19 @@ pub fn check(args: &Args) -> Outcome {
             violations.push((f, json!({"engine": "E8", "membership_masks": structures[i as usize]})));
         }
     }
+    // the pools the real gossip round builds and hands over (scripted transport, paused clock)
+    if !miri {
+        let (f, c) = crate::server::pools_part(args);
+        ev.counters.merge(&c);
+        ev.evaluations += c.get("server_rounds_checked");
+        for x in f {
+            if x.is_for("C17") {
+                violations.push((x, json!({"engine": "E10-pools"})));
+            } else {
+                ev.inconclusive.push(format!("server pools: {}", x.detail));
+            }
+        }
+    }
     ev.samples = vec![
         json!({"membership_masks(bit0 peer, bit1 live, bit2 dead, bit3 seed)": structures.get(structures.len() / 2), "generators": scr.iter().map(|s| s.0).collect::<Vec<_>>()}),
         json!({"membership_masks": structures.last()}),
@@ -202,7 +215,7 @@ pub fn check(args: &Args) -> Outcome {
     if !complete {
         ev.inconclusive.push("wall-clock watchdog: enumeration not completed".into());
     }
-    ev.rule = format!("exhaustive over the subset structure of the four sets for universes of 0..{max_size} addresses (every multiset of membership masks: {n} structures) x 7 scripted generators (all-min, all-max, mid, alternating, ramp, just-below-one; two phases each) + seeded StdRng draws; distinct = distinct structures; each call is checked against all clauses of the statement");
+    ev.rule = format!("exhaustive over the subset structure of the four sets for universes of 0..{max_size} addresses (every multiset of membership masks: {n} structures) x 7 scripted generators (all-min, all-max, mid, alternating, ramp, just-below-one; two phases each) + seeded StdRng draws; distinct = distinct structures; each call is checked against all clauses of the statement; plus the caller: real gossip servers on a scripted transport whose peers heartbeat, fall silent, are scheduled for deletion and forgotten, the SYN destinations of every round judged against the live / dead / known sets read just before it");
     ev.assumptions = vec!["the sets are passed to the real function unchanged (they need not be consistent with each other)".into()];
     let nothing = ev.counters.get("selections") == 0;
     Outcome { evidence: ev, violations, nothing_observed: nothing }
